@@ -205,7 +205,7 @@ func (tr *Tr) evalCall(env *CEnv, x *CCall) (Value, types.Type) {
 							continue
 						}
 						tr.fresh++
-						cs = append(cs, fmt.Sprintf("(forall ((r Int)) (! (=> (< r %s) (= (select %s r) (select %s r))) :pattern ((select %s r)) :qid AF%d))", otop, now, old, now, tr.fresh))
+						cs = append(cs, fmt.Sprintf("(forall ((r Int)) (! (=> (and (< 0 r) (< r %s)) (= (select %s r) (select %s r))) :pattern ((select %s r)) :qid AF%d))", otop, now, old, now, tr.fresh))
 						if tr.assumeMode {
 							if _, has := tr.allocParent[now]; !has {
 								tr.allocParent[now] = old
@@ -218,6 +218,15 @@ func (tr *Tr) evalCall(env *CEnv, x *CCall) (Value, types.Type) {
 				}
 			}
 			return boolV(sAnd(cs...)), bt
+		case "deref":
+			// deref(p): the pointee of pointer p in the current state
+			v, t := tr.evalC(env, x.Args[0])
+			ptr, ok := t.Underlying().(*types.Pointer)
+			if !ok {
+				panic(subsetErr("deref() of a non-pointer"))
+			}
+			pv := tr.rval(env, v, t)
+			return LocV{L: tr.locOf(pv, ptr.Elem()), Typ: ptr.Elem()}, ptr.Elem()
 		case "ncalls":
 			if tr.cbParam == nil {
 				panic(subsetErr("ncalls outside an iterating function"))
@@ -782,6 +791,27 @@ func (tr *Tr) cntSym(dom, n, body string) string {
 	app := "(" + s + " " + strings.Join(as, " ") + ")"
 	if len(boundVarsOf(app)) == 0 {
 		tr.sc.fact(fmt.Sprintf("(and (<= 0 %s) (<= %s %s))", app, app, n))
+		// A-count-witness: a key with the property makes the count at least one, two different such keys at least two
+		// (elementary counting facts, stated per counting term)
+		wkey := "cntwit|" + app + "|" + dom + "|" + body
+		if !tr.typeFactDone[wkey] && tr.specMode == 0 || !tr.typeFactDone[wkey] && !strings.Contains(dom+body, "?") {
+			tr.typeFactDone[wkey] = true
+			inst := func(x string) string {
+				for _, p := range ps {
+					if !p.bound && p.tok != p.actual {
+						x = strings.ReplaceAll(x, p.tok, p.actual)
+					}
+				}
+				return x
+			}
+			d, b := inst(dom), inst(body)
+			if len(boundVarsOf(d, b)) == 0 {
+				at := func(v string) string { return sAnd("(select "+d+" "+v+")", strings.ReplaceAll(b, cntBound, v)) }
+				tr.sc.fact(fmt.Sprintf("(forall ((wa Int)) (! (=> %s (>= %s 1)) :pattern ((select %s wa))))", at("wa"), app, d))
+				tr.sc.fact(fmt.Sprintf("(forall ((wa Int) (wb Int)) (! (=> (and (not (= wa wb)) %s %s) (>= %s 2)) :pattern ((select %s wa) (select %s wb))))", at("wa"), at("wb"), app, d, d))
+				tr.assumptions["A-count-witness: a key with the property makes the count >= 1, two different ones >= 2 (engine axiom)"] = true
+			}
+		}
 	}
 	return app
 }
